@@ -2,7 +2,7 @@ use crate::execute::{
     circuit_breaker, execute_submit_batch, fee_withdraw, handle_ibc_reply, receive_rewards,
     receive_unstaked_tokens, recover, resume_contract, update_config,
 };
-use crate::helpers::{validate_addresses, validate_denom};
+use crate::helpers::{validate_addresses, validate_denom, validate_period};
 use crate::ibc::{receive_ack, receive_timeout};
 use crate::migrations;
 use crate::query::{
@@ -72,7 +72,7 @@ pub fn instantiate(
             &msg.monitors,
             &msg.protocol_chain_config.account_address_prefix,
         )?,
-        batch_period: msg.batch_period,
+        batch_period: validate_period(msg.batch_period)?,
         stopped: true, // we start stopped
     };
     CONFIG.save(deps.storage, &config)?;
